@@ -465,13 +465,20 @@ func (g *G) effect() {
 		}
 		g.emit("%s", strings.Join(parts, " "))
 	case 1:
+		if g.r.Chance(0.5) {
+			// verbs that do not fit their argument are legal too (fmt prints a %!verb(...) note)
+			verbs := []string{"%v", "%s", "%d", "%f", "%t", "%q", "%x", "%5.1f", "%08.3f", "%+v", "%c", "%e", "%g", "%U", "%3d|", "%-6s|", "%%"}
+			v1, v2 := verbs[g.r.Intn(len(verbs))], verbs[g.r.Intn(len(verbs))]
+			g.emit("printf \"%s %s\\n\" %s %s", v1, v2, g.expr(g.randType(2), 2), g.expr(g.randType(2), 1))
+			return
+		}
 		g.emit("printf \"%%v:%%v\\n\" %s %s", g.expr(g.randType(1), 2), g.expr(Num, 1))
 	case 2:
 		g.emit("print (repr %s)", g.expr(g.randType(2), 2))
 	case 3:
 		g.graphics()
 	case 4:
-		g.emit("sleep %s", []string{"0", "0.001", "0.5", "2", "0.016"}[g.r.Intn(5)])
+		g.emit("sleep %s", []string{"0", "0.001", "0.5", "2", "0.016", "(-0.5)", "0.0001", "(0/0)"}[g.r.Intn(8)])
 	case 5:
 		v := g.fresh("in")
 		g.emit("%s := read", v)
